@@ -300,6 +300,7 @@ func (ct *Contract) addClause(kw, rest, file string, line int) error {
 		if callee != "*" {
 			callee = qualify(ct.Pkg, callee)
 		}
+		// a trailing * is a prefix pattern
 		cl.File = callee // callee pattern
 		cl.Ord = len(ct.Sites)
 		cl.Line = line
